@@ -38,37 +38,40 @@ func procCfg(dev, scenarios string, crashes int, emit string, invs []string) str
 
 func itoa(n int) string { b, _ := json.Marshal(n); return string(b) }
 
-func (c *ProcCheck) Run(e *Env) (*Outcome, *Evidence, error) {
+// collect model-checks the ideal process-layer spec, generates schedules from
+// the as-is one and realises them; it returns the observed histories.
+func (c *ProcCheck) collect(e *Env, cov map[string]any) ([]*Obs, error) {
 	thorough := e.Tier == "thorough"
-	cov := map[string]any{}
 	ideal, err := e.runTLC("pideal", "MC_Proc", procCfg("{}", c.Scenarios, c.MaxCrashes, "none", c.IdealInvs), 8, 15*time.Minute)
 	if err != nil {
-		return nil, nil, err
+		return nil, err
 	}
 	if !ideal.NoError {
-		return nil, nil, fatalf("TLC rejects the IDEAL process-layer specification for %s:\n%s", c.Prop, tail(ideal.Out, 60))
+		return nil, fatalf("TLC rejects the IDEAL process-layer specification for %s:\n%s", c.Prop, tail(ideal.Out, 60))
 	}
-	cov["states"] = ideal.Distinct
-	cov["transitions"] = ideal.Generated
-	cov["ideal_model"] = map[string]any{"module": "ErgoProc", "scenarios": c.Scenarios, "max_crashes": c.MaxCrashes,
+	if _, ok := cov["states"]; !ok {
+		cov["states"] = ideal.Distinct
+		cov["transitions"] = ideal.Generated
+	}
+	cov["ideal_proc_model"] = map[string]any{"module": "ErgoProc", "scenarios": c.Scenarios, "max_crashes": c.MaxCrashes,
 		"invariants": c.IdealInvs, "distinct": ideal.Distinct, "generated": ideal.Generated, "depth": ideal.Depth}
 
 	gen, err := e.runTLC("pgen", "MC_Proc", procCfg(tlaSet(loadAsIsDev()), c.Scenarios, c.MaxCrashes, "states", nil), 8, 15*time.Minute)
 	if err != nil {
-		return nil, nil, err
+		return nil, err
 	}
 	if len(gen.Tables) == 0 || len(gen.Lines) == 0 {
-		return nil, nil, fatalf("process-layer generation produced nothing:\n%s", tail(gen.Out, 40))
+		return nil, fatalf("process-layer generation produced nothing:\n%s", tail(gen.Out, 40))
 	}
 	table := map[string]Scenario{}
 	if err := json.Unmarshal([]byte(gen.Tables[0]), &table); err != nil {
-		return nil, nil, fatalf("scenario table: %v", err)
+		return nil, fatalf("scenario table: %v", err)
 	}
 	var states []procState
 	for _, l := range gen.Lines {
 		var ps procState
 		if err := json.Unmarshal([]byte(l), &ps); err != nil {
-			return nil, nil, fatalf("state line: %v: %.200s", err, l)
+			return nil, fatalf("state line: %v: %.200s", err, l)
 		}
 		if f := os.Getenv("VERIF_SCENARIO"); f != "" && ps.Scn != f {
 			continue
@@ -82,11 +85,20 @@ func (c *ProcCheck) Run(e *Env) (*Outcome, *Evidence, error) {
 	t0 := time.Now()
 	obs, total, err := e.driveProc("e3", table, states, c.Only, 12, maxRuns, e.Seed)
 	if err != nil {
-		return nil, nil, err
+		return nil, err
 	}
 	cov["e3"] = map[string]any{"asis_states": len(states), "state_step_pairs": total, "realised": len(obs),
 		"exhaustive": len(obs) == total, "wall_s": time.Since(t0).Seconds(), "asis_generated": gen.Generated}
 
+	return obs, nil
+}
+
+func (c *ProcCheck) Run(e *Env) (*Outcome, *Evidence, error) {
+	cov := map[string]any{}
+	obs, err := c.collect(e, cov)
+	if err != nil {
+		return nil, nil, err
+	}
 	fails, js, err := e.judge(c.Prop, obs)
 	if err != nil {
 		return nil, nil, err
@@ -144,7 +156,7 @@ func init() {
 	registry["C03"] = func() Check {
 		return &ProcCheck{Prop: "C03", Scenarios: "CrashScenarios", MaxCrashes: 1,
 			IdealInvs:    []string{"NeverBricked", "AllOrNothing"},
-			Only:         []string{"C03_readable", "C03_only_own_missing", "C03_continues"},
+			Only:         []string{"C03_readable", "C03_only_own_missing", "C03_continues", "C03_acked_survive"},
 			MaxRunsQuick: 1500, Level: "fault_enumeration"}
 	}
 	registry["C04"] = func() Check {
